@@ -401,6 +401,16 @@ def run_pure(desc, M):
             M.check(r1.equals(r2), "rejection sampling repeatable with a fixed seed")
             l1 = s.likelihood_weighted_sample([State("c", "y")], size=10, seed=3, show_progress=False)
             M.check(len(l1) == 10, "likelihood weighted sample size")
+            # simulate(): the evidence dict and the virtual-evidence list handed in are inputs, they must come back unchanged and reusable
+            from pgmpy.factors.discrete import TabularCPD
+            ev = {"a": 1}
+            virt = [TabularCPD("c", 3, [[0.2], [0.3], [0.5]], state_names={"c": ["x", "y", "z"]})]
+            virt_vals = [np.array(c.values).copy() for c in virt]
+            m.simulate(n_samples=8, evidence=ev, virtual_evidence=virt, seed=2, show_progress=False)
+            M.check(ev == {"a": 1}, "simulate() leaves the caller's evidence dict unchanged", detail=str(ev))
+            M.check(len(virt) == 1 and all(np.array_equal(np.array(c.values), v0) for c, v0 in zip(virt, virt_vals)), "simulate() leaves the virtual-evidence list unchanged")
+            again = m.simulate(n_samples=8, evidence=ev, seed=2, show_progress=False)
+            M.check(len(again) == 8 and list(again["a"]) == [1] * 8, "the same evidence dict can be used again after simulate()")
         else:
             from pgmpy.inference import VariableElimination
             ve = VariableElimination(m)
